@@ -329,7 +329,7 @@ func (op FixedPoint) Op_instruction_verilog_extra_modules(arch *Arch, flavor str
 	}
 	result += "endmodule\n"
 
-	moduleNames := []string{moduleName}
+	moduleNames := []string{moduleName + "_" + op.fpName}
 	moduleCodes := []string{result}
 
 	return moduleNames, moduleCodes
